@@ -142,6 +142,10 @@ def exercise(ctx, label, name, g, app, cov, thorough, code='EPSG3857', latlon=Fa
                 k += 1
                 status, rect = fetch(app, g, f, a, k, code)
                 ctx.count((label, f, a))
+                if rect == 'scrambled' and cov is not None:
+                    # a coverage edge that is not on the pixel raster of the level makes the source answer a clipped,
+                    # slightly stretched sub-request: sub-pixel content shifts are C01/C04 matter, not tile addressing
+                    continue
                 if rect == 'scrambled':
                     ctx.violation({'kind': 'tile-content', 'grid': name, 'flavour': f},
                                   '%s: %s %s returned pixels that are not a regular raster of one rectangle' % (label, f, a), None)
